@@ -1,12 +1,12 @@
 import Rfsm.Audit
-import Rfsm.Proofs.CodecNoPanic
-import Rfsm.Proofs.CodecLossy
+import Rfsm.Proofs.CodecFsm
 /-!
 # C05 — Binary `.rfsm` round trip preserves the model (and hence its behaviour)
 
 Model: `Rfsm.Codec` (lean/Rfsm/Model/Codec.lean): the writer as the sequence of primitive protocol
-calls `FsmWriter::write` issues (`opsFsm`) and the bytes they put into a `Vec<u8>` (`imageOf`,
-`encodeFsm`), the reader as `FsmReader::read` over `DefaultProtocolReader` (`readImage`).
+calls `FsmWriter::write` issues (`opsFsm`) and the bytes they put into a `Vec<u8>` (`imageOf`), the
+reader as `FsmReader::read` over `DefaultProtocolReader` (`readImage`).  The writer has no panic site
+any more (`write_str` used to slice `value[0..len & 0x0FFF]`).
 
 The model value `Fsm` consists of the persisted fields only, so "structurally identical in every
 persisted element" is equality of model values.  The behavioural half of the property is then a
@@ -20,121 +20,100 @@ generated event sequences, harness family `c05`), not by a theorem here.
 the text of a double parses as `f64`, `Data` nesting is below the model's fuel, and the three
 conditionally stored fields are in normal form (an empty transition condition is `Null`; `initial` is 0
 without child states; `Invoke.parent_state_name` is empty unless `invoke_id` is empty; a parameter
-list is not `Some([])`).  `typeLim` is what the Rust types allow, `small` is where the unchanged code
-is lossless.
+list is not `Some([])`).  `typeLim` is what the Rust types allow: strings below 2^64 bytes, the whole
+`u64` range.  Since the repairs of round 2 (68 bit integers written with their eight value bytes,
+string type 0xE0 with a 64 bit length) the code is lossless on all of it.
 -/
 namespace Rfsm.Codec
 
-/-- a model survives: the writer does not panic, and what the reader returns for the written image
-(followed by anything) is the model, with the rest of the input left over and no error flagged -/
+/-- a model survives: what the reader returns for the written image (followed by anything) is the
+model, with the rest of the input left over and no error flagged -/
 def Survives (f : Fsm) : Prop :=
-  encodeFsm f = WriteResult.bytes (imageOf f) ∧ readImageFull (imageOf f) = (ReadResult.ok f, false) ∧
+  readImageFull (imageOf f) = (ReadResult.ok f, false) ∧
   ∀ rest : List Nat, ((readFsmProg.run (RState.init (imageOf f ++ rest))).2.inp = rest)
 
-/-- The property at full strength: every primitive value and every model the Rust types admit
+/-- The property at full strength: every primitive value and every model the Rust types allow
 survives the round trip. -/
 def C05_full : Prop :=
   (∀ v : Nat, v < 2 ^ 64 → ∀ rest, (pUInt.run (RState.init ((uintOp v).bytes ++ rest))).1 = v) ∧
   (∀ s : Str, validUtf8 s = true → s.length < 2 ^ 64 →
-      (Op.str s).panics = false ∧ ∀ rest, (pStr.run (RState.init ((Op.str s).bytes ++ rest))).1 = s) ∧
+      ∀ rest, (pStr.run (RState.init ((Op.str s).bytes ++ rest))).1 = s) ∧
   (∀ f : Fsm, wfFsm typeLim f = true → Survives f)
 
-/-! ## what holds -/
-
-/-- unsigned integers below 2^60 (every id, length, flag word and realistic delay): exact round trip,
-whatever follows in the stream -/
-theorem C05_uint_partial (v : Nat) (hv : v < 2 ^ 60) (rest : List Nat) :
+/-- every `u64`: exact round trip, whatever follows in the stream -/
+theorem C05_uint (v : Nat) (hv : v < 2 ^ 64) (rest : List Nat) :
     ∃ t, pUInt.run (RState.init ((uintOp v).bytes ++ rest)) = (v, ⟨rest, true, t, v, none⟩) := by
   obtain ⟨t, h⟩ := readUInt_roundtrip v hv rest 0 0 none
   exact ⟨t, h⟩
-#assert_axioms C05_uint_partial
+#assert_axioms C05_uint
 
-/-- strings shorter than 4096 bytes: no panic, exact round trip -/
-theorem C05_str_partial (s : Str) (hu : validUtf8 s = true) (hl : s.length < 4096) (rest : List Nat) :
-    (Op.str s).panics = false ∧
-    pStr.run (RState.init ((Op.str s).bytes ++ rest)) = (s, ⟨rest, true, strTid s, 0, none⟩) := by
-  refine ⟨?_, readString_roundtrip s hl hu rest 0 0 none⟩
-  have : strOk (.str s) = true := by simp only [strOk]; exact decide_eq_true hl
-  have := opsOk_no_panic [.str s] (by simp [this])
-  simpa [anyPanics] using this
-#assert_axioms C05_str_partial
+/-- every string a Rust `String` can hold (valid UTF-8, length below 2^64): exact round trip -/
+theorem C05_str (s : Str) (hu : validUtf8 s = true) (hl : s.length < 2 ^ 64) (rest : List Nat) :
+    pStr.run (RState.init ((Op.str s).bytes ++ rest)) = (s, ⟨rest, true, strTid s, 0, none⟩) :=
+  readString_roundtrip s hl hu rest 0 0 none
+#assert_axioms C05_str
 
-/-- every `Data` value (all ten variants, arrays and maps nested to any depth below the fuel) within
-the limits -/
-theorem C05_data_partial (d : Data) (hw : wfD small d = true) (rest : List Nat) :
-    anyPanics (opsData d) = false ∧
+/-- every `Data` value (all ten variants, arrays and maps nested to any depth below the fuel) -/
+theorem C05_data (d : Data) (hw : wfD typeLim d = true) (rest : List Nat) :
     ∃ t n, readData.run (RState.init (bytesOf (opsData d) ++ rest)) = (d, ⟨rest, true, t, n, none⟩) :=
-  ⟨opsOk_no_panic _ (opsOk_wd hw), Reads.wdata hw rest 0 0 none⟩
-#assert_axioms C05_data_partial
+  Reads.wdata hw rest 0 0 none
+#assert_axioms C05_data
 
 /-- the integer text: `i64::to_string` then `str::parse::<i64>` is the identity on the whole `i64` range -/
 theorem C05_i64_text (v : Int) (h1 : -(2 ^ 63) ≤ v) (h2 : v < 2 ^ 63) : parseI64 (showInt v) = some v :=
   parseI64_showInt v h1 h2
 #assert_axioms C05_i64_text
 
-/-- **Main theorem (partial).** Every model within the limits `small` — all states, transitions, the
-nine executable content kinds, invoke, donedata, data, for every order in which the hash maps are
-iterated — is written without panic and read back identical, with no error flagged and exactly the
-trailing bytes left over.  Missing for `C05_full`: strings of 4096 bytes and more and `u64` values of
-2^60 and more, where the unchanged code is lossy (see the counterexamples below). -/
-theorem C05_partial (f : Fsm) (h : wfFsm small f = true) : Survives f := by
-  refine ⟨encodeFsm_wf h, readImageFull_image h, fun rest => ?_⟩
+/-- every model the types allow — all states, transitions, the nine executable content kinds, invoke,
+donedata, data, for every order in which the hash maps are iterated — is read back identical, with no
+error flagged and exactly the trailing bytes left over -/
+theorem C05_model (f : Fsm) (h : wfFsm typeLim f = true) : Survives f := by
+  refine ⟨readImageFull_image h, fun rest => ?_⟩
   obtain ⟨t, n, hr⟩ := Reads.fsm h rest 0 0 none
   simp [RState.init, hr]
-#assert_axioms C05_partial
+#assert_axioms C05_model
+
+/-- **Main theorem: the property at full strength.** -/
+theorem C05 : C05_full := by
+  refine ⟨fun v hv rest => ?_, fun s hu hl rest => ?_, C05_model⟩
+  · obtain ⟨t, h⟩ := C05_uint v hv rest
+    rw [h]
+  · rw [C05_str s hu hl rest]
+#assert_axioms C05
 
 /-- corollary in the form of the property: reading what was written gives the model back -/
-theorem C05_roundtrip (f : Fsm) (h : wfFsm small f = true) :
-    ∃ img, encodeFsm f = WriteResult.bytes img ∧ readImage img = ReadResult.ok f :=
-  ⟨imageOf f, (C05_partial f h).1, by simp [readImage, (C05_partial f h).2.1]⟩
+theorem C05_roundtrip (f : Fsm) (h : wfFsm typeLim f = true) : readImage (imageOf f) = ReadResult.ok f := by
+  simp [readImage, (C05_model f h).1]
 #assert_axioms C05_roundtrip
 
-/-! ## what does not hold on the unchanged code -/
+/-! ## regression: the inputs on which the code was lossy before the repairs -/
 
-/-- `write_uint(2^60)` is read back as 0: the 68-bit form shifts by 52, 44, …, 4, 0 (the last two
-bytes overlap) and the reader's `u64` drops the top nibble -/
-theorem C05_uint_counterexample :
-    (pUInt.run (RState.init ((uintOp (2 ^ 60)).bytes))).1 = 0 ∧
-    (pUInt.run (RState.init ((uintOp (2 ^ 60)).bytes))).2.ok = true := by decide
-#assert_axioms C05_uint_counterexample
+/-- `write_uint(2^60)` used to be read back as 0 (the 68-bit form shifted by 52, 44, …, 4, 0) -/
+theorem C05_uint_regression :
+    (uintOp (2 ^ 60)).bytes = [0xB0, 0x10, 0, 0, 0, 0, 0, 0, 0] ∧
+    (pUInt.run (RState.init ((uintOp (2 ^ 60)).bytes))).1 = 2 ^ 60 ∧
+    (pUInt.run (RState.init ((uintOp (2 ^ 64 - 1)).bytes))).1 = 2 ^ 64 - 1 := by decide
+#assert_axioms C05_uint_regression
 
-/-- a string of exactly 4096 bytes is written as the two bytes `D0 00` and read back empty, without
-any error -/
-theorem C05_str_counterexample (s : Str) (hl : s.length = 4096) (rest : List Nat) :
-    (Op.str s).bytes = [0xD0, 0] ∧
-    pStr.run (RState.init ((Op.str s).bytes ++ rest)) = ([], ⟨rest, true, 0xD0, 0, none⟩) := by
-  have hb : (Op.str s).bytes = [0xD0, 0] := by
-    simp [Op.bytes, strHeader, strSliceLen, hl, tvBytes, tvTail]
-  refine ⟨hb, ?_⟩
-  rw [hb]
-  simp [pStr, Prim.run, readStringS, readTypeAndSize, RState.init, readStrPayload, validUtf8]
-#assert_axioms C05_str_counterexample
+/-- a string of exactly 4096 bytes used to be written as the two bytes `D0 00` and read back empty;
+it now carries the type 0xE0 and its length in eight bytes -/
+theorem C05_str_regression (s : Str) (hl : s.length = 4096) :
+    (Op.str s).bytes = [0xE0, 0, 0, 0, 0, 0, 0, 0x10, 0] ++ s := by
+  have h := strBytes_long s (by omega)
+  rw [h, hl]
+  rfl
+#assert_axioms C05_str_regression
 
-/-- exactly what is lost: a string of any length ≥ 16 comes back cut to `len mod 4096` bytes (when that
-cut is at a character boundary; otherwise the writer panics, next theorem) — with no error flagged -/
-theorem C05_str_lossy (s : Str) (h16 : 16 ≤ s.length) (hu : validUtf8 (s.take (s.length % 4096)) = true)
-    (rest : List Nat) :
-    pStr.run (RState.init ((Op.str s).bytes ++ rest)) =
-      (s.take (s.length % 4096), ⟨rest, true, 0xD0, 0, none⟩) :=
-  readString_lossy s h16 hu rest 0 0 none
-#assert_axioms C05_str_lossy
-
-/-- multi-byte text: when `len & 0x0FFF` falls inside a character the writer panics.  Witness: 2048 times
-`é` followed by `_` (4097 bytes; the slice end 4097 & 0x0FFF = 1 is inside the first `é`). -/
-theorem C05_str_panic_counterexample :
-    validUtf8 ((List.replicate 2048 [195, 169]).flatten ++ [95]) = true ∧
-    (Op.str ((List.replicate 2048 [195, 169]).flatten ++ [95])).panics = true := by
-  decide +kernel
-#assert_axioms C05_str_panic_counterexample
-
-theorem C05_counterexample : ¬ C05_full := by
-  intro h
-  have := h.1 (2 ^ 60) (by decide) []
-  have h0 := C05_uint_counterexample.1
+/-- multi-byte text: 2048 times `é` followed by `_` (4097 bytes) used to panic in the writer (the slice
+end 4097 & 0x0FFF = 1 is inside the first `é`); it is read back whole -/
+theorem C05_str_multibyte_regression :
+    (pStr.run (RState.init ((Op.str ((List.replicate 2048 [195, 169]).flatten ++ [95])).bytes))).1 =
+      (List.replicate 2048 [195, 169]).flatten ++ [95] := by
+  have hu : validUtf8 ((List.replicate 2048 [195, 169]).flatten ++ [95]) = true := by decide +kernel
+  have := C05_str _ hu (by decide +kernel) []
   simp only [List.append_nil] at this
-  rw [h0] at this
-  exact absurd this (by decide)
-#assert_axioms C05_counterexample
+  rw [this]
+#assert_axioms C05_str_multibyte_regression
 
 /-! ## non-vacuity: a model with a compound state, history, invoke, donedata, data, a guarded
 transition and content of several kinds satisfies the hypotheses -/
@@ -159,7 +138,7 @@ def exFsm : Fsm :=
                      .ifc (.source [116] 11) 2 0, .script [1, 2]]),
                 (2, [.assign (.source [49] 12) (.source [118] 13), .cancel [115] .none])] }
 
-example : wfFsm small exFsm = true := by decide +kernel
-example : wfD small (.array [.integer (-5), .map [([107], .double [49, 46, 53])], .none]) = true := by decide
+example : wfFsm typeLim exFsm = true := by decide +kernel
+example : wfD typeLim (.array [.integer (-5), .map [([107], .double [49, 46, 53])], .none]) = true := by decide
 
 end Rfsm.Codec
